@@ -2,7 +2,7 @@
 {
  "id": "QBE.convert.flt",
  "file": "qbe.c", "function": "convert",
- "properties": {"C01": "contract", "C19": "safety"},
+ "properties": {"C01": "contract", "C10": "contract", "C19": "safety"},
  "mode": "dfcc", "enforce": "convert/convert_contract", "post_macro": "POST_FLT",
  "replace_calls": {"funcinst": "rec_funcinst"},
  "kind": "proof",
